@@ -636,3 +636,61 @@ def flag_condition(fnode, name, before=None):
             cands.append(n.value)
     return cands[-1] if len(cands) == 1 else None
 
+
+
+# --- propositional entailment over guard atoms -------------------------------
+
+def _prop(e, atoms):
+    """Formula tree over leaf atoms: ('not', x) | ('and', [...]) |
+    ('or', [...]) | ('atom', text)."""
+    if isinstance(e, ast.UnaryOp) and isinstance(e.op, ast.Not):
+        return ('not', _prop(e.operand, atoms))
+    if isinstance(e, ast.BoolOp):
+        return ('and' if isinstance(e.op, ast.And) else 'or',
+                [_prop(v, atoms) for v in e.values])
+    neg = False
+    if isinstance(e, ast.Compare) and len(e.ops) == 1 and isinstance(
+            e.ops[0], (ast.IsNot, ast.NotEq, ast.NotIn)):
+        flip = {ast.IsNot: ast.Is, ast.NotEq: ast.Eq, ast.NotIn: ast.In}
+        e = ast.Compare(left=e.left, ops=[flip[type(e.ops[0])]()],
+                        comparators=e.comparators)
+        neg = True
+    t = ast.unparse(e)
+    atoms.add(t)
+    return ('not', ('atom', t)) if neg else ('atom', t)
+
+
+def _ev(f, env):
+    k = f[0]
+    if k == 'atom':
+        return env[f[1]]
+    if k == 'not':
+        return not _ev(f[1], env)
+    if k == 'and':
+        return all(_ev(x, env) for x in f[1])
+    return any(_ev(x, env) for x in f[1])
+
+
+def entails(guards, goal, max_atoms=14):
+    """True when every truth assignment of the leaf conditions that satisfies
+    all ``guards`` [(expr, polarity)] also satisfies the expression ``goal``
+    (an ast expression or source text).  Leaf conditions are compared by
+    their text and treated as independent propositions, so the answer is
+    sound for 'entails' (it may miss entailments that need arithmetic)."""
+    import itertools
+    if isinstance(goal, str):
+        goal = ast.parse(goal, mode='eval').body
+    atoms = set()
+    fs = []
+    for e, pol in guards:
+        f = _prop(e, atoms)
+        fs.append(f if pol else ('not', f))
+    g = _prop(goal, atoms)
+    names = sorted(atoms)
+    if len(names) > max_atoms:
+        return False
+    for vals in itertools.product((False, True), repeat=len(names)):
+        env = dict(zip(names, vals))
+        if all(_ev(f, env) for f in fs) and not _ev(g, env):
+            return False
+    return True
